@@ -105,6 +105,13 @@ def run(tier):
     t0 = time.time()
     progs = family_programs(tier, seed)
     progs += [("C02:shape:" + k, v) for k, v in fam.SHAPES.items()]
+    slots = list(fam.slot_products())
+    if tier == "quick":
+        # index slots in full (small), a seed-rotated quarter of the expression-slot product
+        idx = [x for x in slots if x[0].startswith("C02:index:")]
+        ex = [x for x in slots if not x[0].startswith("C02:index:")]
+        slots = idx + random.Random(seed).sample(ex, len(ex) // 4)
+    progs += slots
     progs += fam.stdlib_modules(25 if tier == "quick" else 200, 25000 if tier == "quick" else 80000)
     table = []  # (desc, cfg, returned, wellformed, status, detail)
     for desc, src in progs:
@@ -145,6 +152,7 @@ def run(tier):
         "statement over the table (W_wellformed). The line-break obligation for arbitrary string contents under the custom unparser is discharged by the C04 kernels (all code points)." % nprog
     )
     cov["programs"] = nprog
+    cov["slot_product"] = {"expression_slots": len(fam.EXPR_SLOTS), "expression_fillers": len(fam.EXPR_FILLERS), "index_slots": len(fam.INDEX_SLOTS), "index_fillers": len(fam.INDEX_FILLERS), "placements": list(fam.SLOT_PLACEMENTS), "programs_in_this_run": sum(1 for d, *_ in table if d.startswith(("C02:slot:", "C02:index:"))) // 8}
     cov["evaluations"] = len(table)
     cov["distinct_nontrivial"] = sum(1 for t in table if t[2])
     cov["rule"] = "one row per (program, option combination); non-trivial = conversion returned (a rejection with an exception is allowed by the property)"
